@@ -33,6 +33,8 @@ def sgn(v, w):
 
 
 def tstr(t):
+    if t[0] == "I":
+        return "int"  # run-time integers (VHDL integer); as a compile-time constant: cohdl.Integer
     return {"U": "Unsigned[%d]", "S": "Signed[%d]", "BV": "BitVector[%d]"}[t[0]] % t[1] if t[0] in ("U", "S", "BV") else "Bit"
 
 
@@ -339,6 +341,8 @@ def r(e, bit_as_cond=False):
     if op == "ci":
         return str(e[1]) if e[1] >= 0 else f"({e[1]})"
     if op == "cv":
+        if e[1][0] == "I":
+            return f"cohdl.Integer({sgn(e[2] & mask(32), 32)})"
         if e[1][0] == "BV":
             return f"{tstr(e[1])}(\"{e[2] & mask(e[1][1]):0{e[1][1]}b}\")"
         return f"{tstr(e[1])}({e[2]})"
@@ -481,7 +485,7 @@ def num(e, env):
     if e[0] == "ci":
         return e[1]
     v = ev(e, env)
-    return sgn(v, e[1][1]) if e[1][0] == "S" else v
+    return sgn(v, e[1][1]) if e[1][0] in ("S", "I") else v
 
 
 def wrap(n, t):
